@@ -183,7 +183,7 @@ def classify_loops(fn):
 
 
 def loop_key(lp):
-    conds = sorted(show(c) for _, c in lp.exits)
+    conds = sorted(re.sub(r'\b_\d+\b', '_', show(c)) for _, c in lp.exits)
     return '%s|loop|%s' % (lp.fn.qual, ' ; '.join(conds)[:400])
 
 
